@@ -354,3 +354,12 @@ Proof.
   split; [apply parse_template_err; exact Hp|]. split; [apply parse_template_cause; exact Hp|].
   split; [apply parse_template_dup; exact Hp|apply parse_template_unmatched; exact Hp].
 Qed.
+
+(* C07: the only slicing in the error renderers - the two `replace_range` calls that draw the carets of a
+   DuplicateParameter error on a line of template.len() spaces - is in range for every error the parser returns *)
+Theorem parse_dup_in_range (t0 t n : bytes) f fl s sl :
+  parse t0 = Err (EDuplicateParameter t n f fl s sl) -> f + fl <= length t /\ s + sl <= length t /\ f + fl <= s.
+Proof.
+  intros H. destruct (parse_err_ok t0 _ H) as [[E _]|[Hp|(es & raw & _ & _ & Hok)]]; [discriminate|destruct Hp|].
+  cbn [tmpl_err_ok] in Hok. destruct Hok as (-> & (_ & B1 & _) & (_ & B2 & _) & Hle). auto.
+Qed.
